@@ -313,13 +313,6 @@ theorem sapply_refines {s : SSt} {a : SA} (h : SAbs s a) (op : SOp) (hok : op.ok
 
 /-! ### operation lists -/
 
-def SSt.run : SSt → List SOp → Option (SSt × List DRes)
-  | s, [] => some (s, [])
-  | s, op :: ops => do
-    let (s1, r) ← s.apply op
-    let (s2, rs) ← s1.run ops
-    pure (s2, r :: rs)
-
 def SA.run : SA → List SOp → SA × List DRes
   | a, [] => (a, [])
   | a, op :: ops => let (a1, r) := a.apply op; let (a2, rs) := a1.run ops; (a2, r :: rs)
@@ -362,5 +355,60 @@ theorem swalk_spec {nx : PM} : ∀ (L : List Nat) (p : Ptr) (fuel : Nat), ChainT
     obtain ⟨f, rfl⟩ : ∃ f, fuel = f + 1 := ⟨fuel - 1, by simp at hf; omega⟩
     rw [hc.1]
     simp only [walk, ih _ f hc.2 (by simp at hf; omega)]
+
+/-! ### ranging over the list while the loop body mutates it -/
+
+/-- `e.Next()` on the specification: the successor in the sequence; nil for the last node and
+for a node that is not in the list (a removed node is returned with its link cleared). -/
+def SA.rangeAll (body : Nat → List SOp) (stop : Nat → Bool) :
+    Nat → Nat → Ptr → SA → List (Nat × Int) → SA × List (Nat × Int) × Bool
+  | _, _, none, a, acc => (a, acc.reverse, true)
+  | 0, _, some _, a, acc => (a, acc.reverse, false)
+  | f + 1, i, some e, a, acc =>
+    let y := (e, a.val e)
+    let a1 := (a.run (body i)).1
+    if stop i then (a1, (y :: acc).reverse, true)
+    else SA.rangeAll body stop f (i + 1) (succOf e a1.seq) a1 (y :: acc)
+
+def SRangeOk (body : Nat → List SOp) (stop : Nat → Bool) : Nat → Nat → Ptr → SA → Prop
+  | _, _, none, _ => True
+  | 0, _, some _, _ => True
+  | f + 1, i, some e, a =>
+    SOpsOk a (body i) ∧
+      (stop i = false → SRangeOk body stop f (i + 1) (succOf e (a.run (body i)).1.seq) (a.run (body i)).1)
+
+theorem next_sabs {s : SSt} {a : SA} (h : SAbs s a) (e : Nat) : s.next.get e = succOf e a.seq := by
+  obtain ⟨s', r1, _⟩ := sapply_refines h (.next e) trivial
+  simp only [SSt.apply, SA.apply, Option.some.injEq, Prod.mk.injEq, DRes.ptr.injEq] at r1
+  exact r1.2
+
+theorem srange_refines (body : Nat → List SOp) (stop : Nat → Bool) :
+    ∀ (f i : Nat) (p : Ptr) (s : SSt) (a : SA) (acc : List (Nat × Int)), SAbs s a →
+      SRangeOk body stop f i p a →
+      ∃ s', SSt.rangeAll body stop f i p s acc =
+          some (s', (SA.rangeAll body stop f i p a acc).2.1, (SA.rangeAll body stop f i p a acc).2.2) ∧
+        SAbs s' (SA.rangeAll body stop f i p a acc).1 := by
+  intro f
+  induction f with
+  | zero =>
+    intro i p s a acc h _
+    cases p <;> exact ⟨s, by simp [SSt.rangeAll, SA.rangeAll], by simpa [SA.rangeAll] using h⟩
+  | succ f ih =>
+    intro i p s a acc h hok
+    cases p with
+    | none => exact ⟨s, by simp [SSt.rangeAll, SA.rangeAll], by simpa [SA.rangeAll] using h⟩
+    | some e =>
+      obtain ⟨hops, hrest⟩ := hok
+      obtain ⟨s1, r1, h1⟩ := srun_refines h (body i) hops
+      by_cases hs : stop i = true
+      · refine ⟨s1, ?_, by simpa [SA.rangeAll, hs] using h1⟩
+        simp [SSt.rangeAll, SA.rangeAll, r1, hs, h.val e]
+      · have hs' : stop i = false := by simpa using hs
+        obtain ⟨s', r2, h2⟩ := ih (i + 1) (succOf e (a.run (body i)).1.seq) s1 (a.run (body i)).1
+          ((e, a.val e) :: acc) h1 (hrest hs')
+        refine ⟨s', ?_, by simpa [SA.rangeAll, hs'] using h2⟩
+        simp only [SSt.rangeAll, r1, Option.bind_eq_bind, Option.bind_some, hs', h.val e,
+          next_sabs h1 e, SA.rangeAll]
+        simpa using r2
 
 end Golib.C13
